@@ -39,6 +39,11 @@ Accept(chain, expired, nameOK, set, scope) ==
      /\ (~expired \/ e.certs)
      /\ (nameOK \/ e.hosts \/ e.certs)
 
+\* TLS inside TLS: two peers are authenticated with the same settings, the one the row describes and a well-behaved
+\* one (private CA, valid, right name) - the https proxy in front of the origin, or the origin behind the proxy
+AcceptBoth(chain, expired, nameOK, set, scope) ==
+  Accept(chain, expired, nameOK, set, scope) /\ Accept("ca", FALSE, TRUE, set, scope)
+
 \* a peer that cannot prove possession of the certificate's key is nobody: only waiving certificate checks
 \* altogether may let it through (what happens then is not stated)
 PopOK(pop, set, scope, res) == (~pop /\ res = "ok") => Effective(set, scope).certs
